@@ -1,9 +1,136 @@
 import UvModel.DriverUtil
-/-! line-protocol driver modes for C17 (stub: no modes yet) -/
+import UvModel.FsPoll
+/-! line-protocol driver modes for C17; the other side is harness/c17_sim.c.
+
+  mode `c17poll` (fs_poll).  Input = the harness's own input-bearing lines:
+    script <k> <op>;<op>...            ops of the k-th user callback (start:h:cb:p:iv stop:h close:h)
+    op start <h> <cb> <p> <iv> | op stop <h> | op close <h> | op getpath <h>
+    op advance <n> | op release ... | op run      (release/run only matter to the real loop)
+    ev statdone c<k> <status> [<14 fields>] | ev timerfire c<k> | ev timerclosed c<k> | ev closecb h<k>
+    op end
+  Output: every line the harness prints that is not a '#' comment.
+-/
 namespace Drivers.C17
-open UvModel.DriverUtil
+open UvModel.DriverUtil UvModel.FsPoll
+
+def parseOp : List String → Option Op
+  | ["start", h, cb, p, iv] => do pure (.start (← h.toNat?) (← cb.toNat?) (← p.toNat?) (← iv.toNat?))
+  | ["stop", h] => do pure (.stop (← h.toNat?))
+  | ["close", h] => do pure (.close (← h.toNat?))
+  | _ => none
+
+def fmtOp : Op → String
+  | .start h cb p iv => s!"op start {h} {cb} {p} {iv}"
+  | .stop h => s!"op stop {h}"
+  | .close h => s!"op close {h}"
+
+def fmtStat (s : Stat) : String :=
+  ",".intercalate ([s.ctimNs, s.mtimNs, s.btimNs, s.ctimS, s.mtimS, s.btimS, s.size, s.mode, s.uid, s.gid,
+                    s.ino, s.dev, s.flags, s.gen].map toString)
+
+def parseStat (w : String) : Option Stat :=
+  match (w.splitOn ",").map String.toNat? with
+  | [some a, some b, some c, some d, some e, some f, some g, some h, some i, some j, some k, some l, some m, some n] =>
+    some { ctimNs := a, mtimNs := b, btimNs := c, ctimS := d, mtimS := e, btimS := f, size := g, mode := h,
+           uid := i, gid := j, ino := k, dev := l, flags := m, gen := n }
+  | _ => none
+
+def fmtObs : Obs → List String
+  | .cb _ h f st p c => [s!"cb h{h} f{f} {st} prev={fmtStat p} curr={fmtStat c}"]
+  | .stat c p => [s!"stat c{c} p{p}"]
+  | .arm c n => [s!"arm c{c} {n}"]
+  | .closeTimer c => [s!"closetimer c{c}"]
+  | .res _ _ _ => []
+  | .ret rc a => [s!"ret {rc} a={if a then 1 else 0}"]
+  | .api o => [fmtOp o]
+  | .misuse => ["misuse"]
+  | .badEvent => ["bad-event"]
+
+structure DS where
+  s : S := {}
+  script : List (Nat × List Op) := []
+
+def scriptOf (d : DS) : Script := fun k => ((d.script.find? (·.1 = k)).map (·.2)).getD []
+
+def newLines (old new : S) : List String :=
+  ((new.trace.take (new.trace.length - old.trace.length)).reverse).flatMap fmtObs
+
+def NH : Nat := 4
+
+def idOf (pre : String) (w : String) : Option Nat :=
+  if w.startsWith pre then (w.drop pre.length).toString.toNat? else none
+
+/-- teardown of `end`: close every handle, then deliver what is pending until nothing changes -/
+def teardown (d : DS) : S :=
+  let sc := scriptOf d
+  let s := (List.range NH).foldl (fun s h => if (s.hs h).closing then s else apiClose s h) d.s
+  let round (s : S) : S :=
+    let s := (List.range s.nctx).foldl (fun s c =>
+      if (s.ctxs c).statInFlight then statDone sc s c (.err 1) else s) s
+    let s := (List.range s.nctx).foldl (fun s c =>
+      if (s.ctxs c).timerClosing && !(s.ctxs c).freed then timerClosed s c else s) s
+    (List.range NH).foldl (fun s h => if (s.hs h).closePending && !(s.hs h).closed then closeCb s h else s) s
+  round (round (round s))
+
+def stepPoll (d : DS) (ws : List String) : DS × List String :=
+  match ws with
+  | [] => (d, [])
+  | "script" :: k :: rest =>
+    let line := " ".intercalate ws
+    let ops := ((" ".intercalate rest).splitOn ";").map (fun o => parseOp ((o.splitOn ":").filter (· ≠ "")))
+    match k.toNat?, ops.all Option.isSome with
+    | some k, true => ({ d with script := (k, ops.filterMap id) :: d.script }, [line])
+    | _, _ => (d, [line, "bad-op"])
+  | "op" :: "getpath" :: [h] =>
+    match h.toNat? with
+    | some h =>
+      if h ≥ NH then (d, [s!"op getpath {h}", "bad-op"])
+      else if (d.s.hs h).closed then (d, [s!"op getpath {h}", "misuse"])
+      else match getpath d.s h with
+        | (rc, some p) => (d, [s!"op getpath {h}", s!"path {rc} p{p}"])
+        | (rc, none) => (d, [s!"op getpath {h}", s!"path {rc} -"])
+    | none => (d, [" ".intercalate ws, "bad-op"])
+  | "op" :: "advance" :: [n] =>
+    match n.toNat? with
+    | some n => ({ d with s := step (scriptOf d) d.s (.advance n) }, [" ".intercalate ws])
+    | none => (d, [" ".intercalate ws, "bad-op"])
+  | "op" :: "release" :: _ => (d, [" ".intercalate ws])
+  | ["op", "run"] => (d, ["op run"])
+  | ["op", "end"] =>
+    let s := teardown d
+    let openH := ((List.range NH).filter (fun h => !(s.hs h).closed)).length
+    let allFreed := (List.range s.nctx).all (fun c => (s.ctxs c).freed)
+    let rc : Int := if openH = 0 && allFreed && !s.err then 0 else -16
+    ({ d with s := s }, ["op end", s!"loopclose {rc} open={openH}"])
+  | "op" :: rest =>
+    match parseOp rest with
+    | some o =>
+      let h := match o with | .start h _ _ _ => h | .stop h => h | .close h => h
+      let cbOk := match o with | .start _ cb _ _ => cb < 4 | _ => true
+      if h ≥ NH || !cbOk then (d, [" ".intercalate ws, "bad-op"])
+      else
+        let s' := step (scriptOf d) d.s (.op o)
+        ({ d with s := s' }, newLines d.s s')
+    | none => (d, [" ".intercalate ws, "bad-op"])
+  | "ev" :: rest =>
+    let line := " ".intercalate ws
+    let inp : Option In := match rest with
+      | ["statdone", c, "0", st] => do pure (.statDone (← idOf "c" c) (.ok (← parseStat st)))
+      | ["statdone", c, st] => do
+          let v ← st.toInt?
+          if v < 0 then pure (.statDone (← idOf "c" c) (.err ((-v).toNat - 1))) else none
+      | ["timerfire", c] => do pure (.timerFire (← idOf "c" c))
+      | ["timerclosed", c] => do pure (.timerClosed (← idOf "c" c))
+      | ["closecb", h] => do pure (.closeCb (← idOf "h" h))
+      | _ => none
+    match inp with
+    | some i =>
+      let s' := step (scriptOf d) d.s i
+      ({ d with s := s' }, [line] ++ newLines d.s s' ++ (if s'.err && !d.s.err then ["model-error-state"] else []) ++ ["evend"])
+    | none => (d, [line, "bad-op"])
+  | _ => (d, [" ".intercalate ws, "bad-op"])
 
 /-- (mode name, action).  `uvdriver <mode>` runs the action (normally `runLines init step`). -/
-def modes : List (String × IO Unit) := []
+def modes : List (String × IO Unit) := [("c17poll", runLines ({} : DS) stepPoll)]
 
 end Drivers.C17
